@@ -139,6 +139,20 @@ impl Prop for C16 {
                 cs.push(Case::Sequence { key, ops: vec![Op::Unwrap(big), Op::Wrap(3), Op::Unwrap(big), Op::Wrap(big)], via_handshake: false });
             }
         }
+        // every message length 0..1100 (and around the powers of two up to 64 KiB), sealed one after the other by one
+        // context, then unsealed one after the other
+        {
+            let mut lens: Vec<usize> = (0..=1100).collect();
+            for k in 11..=16u32 {
+                let p = 1usize << k;
+                lens.extend([p - 5, p - 4, p - 3, p - 1, p, p + 1, p + 4]);
+            }
+            for key in [2usize, 3] {
+                cs.push(Case::Sequence { key, ops: lens.iter().map(|l| Op::Wrap(*l)).collect(), via_handshake: false });
+                cs.push(Case::Sequence { key, ops: lens.iter().map(|l| Op::Unwrap(*l)).collect(), via_handshake: false });
+                cs.push(Case::Sequence { key, ops: lens.iter().flat_map(|l| [Op::Wrap(*l), Op::Unwrap(*l)]).collect(), via_handshake: key == 2 });
+            }
+        }
         let mut tlens: Vec<usize> = (0..=17).collect();
         tlens.extend([100, 256]);
         if tier == Tier::Thorough {
@@ -178,7 +192,7 @@ impl Prop for C16 {
         json!({"idx": idx, "case": self.cases[idx as usize], "keys": keys().iter().map(|k| hex(k)).collect::<Vec<_>>()})
     }
     fn rule(&self) -> String {
-        "cases: [sequence] every sequence of <=3 (<=4 thorough) operations over {wrap(len), unwrap(peer-sealed len)} with len in {0,1,2,3,15,16,17,255,256,1000}, for 5 exported session keys, on the context built by the public constructor and (sequences <=2) on the one built by a real NEGOTIATE/CHALLENGE handshake: every wrap output must be byte-identical to reference MS-NLMP SEAL+SIGN with carried-over cipher state and sequence numbers, every unwrap must return the plaintext; plus long-lived contexts (300 wraps, 300 unwraps, 600 alternating, 260 unwraps then 260 wraps: the sequence numbers pass 256 in each direction) and messages of 65519..200000 bytes followed by further traffic; [tamper] for every peer-sealed message of length 0..17, 100, 256 at stream position 0 and 1: every single-bit flip, truncations, extensions by 1..3 bytes, reflection, rewritten sequence numbers: all must be rejected. Non-trivial: sequences of >=2 operations and all tamper cases.".into()
+        "cases: [sequence] every sequence of <=3 (<=4 thorough) operations over {wrap(len), unwrap(peer-sealed len)} with len in {0,1,2,3,15,16,17,255,256,1000}, for 5 exported session keys, on the context built by the public constructor and (sequences <=2) on the one built by a real NEGOTIATE/CHALLENGE handshake: every wrap output must be byte-identical to reference MS-NLMP SEAL+SIGN with carried-over cipher state and sequence numbers, every unwrap must return the plaintext; plus long-lived contexts (300 wraps, 300 unwraps, 600 alternating, 260 unwraps then 260 wraps: the sequence numbers pass 256 in each direction) and messages of 65519..200000 bytes followed by further traffic; every length 0..1100 and 2^k-5..2^k+4 (k = 11..16) sealed / unsealed / both in one context; [tamper] for every peer-sealed message of length 0..17, 100, 256 at stream position 0 and 1: every single-bit flip, truncations, extensions by 1..3 bytes, reflection, rewritten sequence numbers: all must be rejected. Non-trivial: sequences of >=2 operations and all tamper cases.".into()
     }
     fn assumptions(&self) -> Vec<String> {
         vec![
